@@ -39,7 +39,10 @@ def run(ctx):
                 continue
             lits = collect_literals(prog, path, depth=2, skip=DECODE_HELPERS)
             lits = {l for l in lits if 0 <= l < (1 << pty.bits)}
+            import probes
             cells = cuts_to_cells(pty.bits, lits)
+            have = {c[0] for c in cells if c[0] == c[1]}
+            cells += [c for c in probes.singles(probes.posit_probes(pty, 2 if ctx.tier == 'thorough' else 1)) if c[0] not in have]
             st = run_cells(ctx, prog, 'GCR', '%s::%s' % (pty.name, name), path,
                            lambda cell, pty=pty: [posit_arg(pty, cell[0][0], cell[0][1], 0)],
                            [cells], mkspec(pty, f), pty.bits)
